@@ -28,6 +28,40 @@ def api(topic, qos, tag, retain=False):
 BARRIER = {"op": "barrier"}
 
 
+def rand_props(rng):
+    """application properties of a message (Payload Format Indicator, Content Type, Response Topic, Correlation Data, User
+    Properties - duplicate keys and order matter)"""
+    p = {}
+    if rng.random() < 0.4:
+        p["pf"] = 1
+    if rng.random() < 0.4:
+        p["ct"] = rng.choice(["text/plain", "application/json", "x"])
+    if rng.random() < 0.4:
+        p["rt"] = rng.choice(["reply/to", "r", "reply/to/x y"])
+    if rng.random() < 0.4:
+        p["cd"] = rng.choice(["c1", "0123456789", "\u0001z"])
+    if rng.random() < 0.5:
+        p["up"] = [[rng.choice(["k", "k2", "a"]), rng.choice(["v", "", "w w"])] for _ in range(rng.choice([1, 2, 3]))]
+    return p or {"up": [["k", "v"]]}
+
+
+def with_props(rng, scenarios, prob=0.35):
+    """attach application properties to a share of the publications (MQTT clients - honoured by v5 publishers only - and
+    Publisher API) and of the wills of the given scenarios"""
+    def walk(steps):
+        for st in steps:
+            if st.get("op") in ("publish", "apipublish") and not st.get("pad") and rng.random() < prob:
+                st["props"] = rand_props(rng)
+            elif st.get("op") == "connect" and st.get("will") and rng.random() < prob:
+                st["will"]["props"] = rand_props(rng)
+            elif st.get("op") == "par":
+                for br in st["branches"]:
+                    walk(br)
+    for sc in scenarios:
+        walk(sc["steps"])
+    return scenarios
+
+
 def rand_subs(rng, v5, n, filters=FILTERS):
     """n subscriptions with pairwise distinct filters (one SUBSCRIBE packet)"""
     out = []
